@@ -24,9 +24,9 @@ Definition hash := Z.
 (* ids fixed by the harness numbering (harness/hz/ledger.go) *)
 Definition TokenContract : addr := 1.
 Definition is_emb (a : addr) : bool := (0 <? a) && (a <? 100).
-Definition ZeroZts : zts := 0.
-Definition ZnnZts : zts := 1.
-Definition QsrZts : zts := 2.
+Definition ZeroId : zts := 0.
+Definition ZnnId : zts := 1.
+Definition QsrId : zts := 2.
 
 Record token := mkToken { t_total : Z; t_max : Z; t_owner : addr; t_mintable : bool; t_burnable : bool }.
 Record send := mkSend { s_hash : hash; s_from : addr; s_to : addr; s_zts : zts; s_amt : Z }.
@@ -147,7 +147,7 @@ Definition sub_balance (s : state) (a : addr) (z : zts) (v : Z) : option state :
   if v <=? b then Some (mkState (set_bal (a, z) (b - v) (bal s)) (toks s) (sends s) (rcv s) (conf s) (front s))
   else None.
 Definition enough_funds (s : state) (a : addr) (z : zts) (v : Z) : bool :=
-  if z =? ZeroZts then true else v <=? get_bal (a, z) (bal s).
+  if z =? ZeroId then true else v <=? get_bal (a, z) (bal s).
 Definition push_send (s : state) (sd : send) : state :=
   mkState (bal s) (toks s) (sends s ++ [sd]) (rcv s) (conf s) (front s).
 Definition set_toks (s : state) (t : list (zts * token)) : state :=
@@ -158,7 +158,7 @@ Definition two255 : Z := 2 ^ 255.
 Definition amounts_check (z : zts) (v : Z) : Z :=
   if v <? 0 then E_AMOUNT_NEGATIVE
   else if two255 <=? v then E_AMOUNT_TOO_BIG
-  else if (0 <? v) && (z =? ZeroZts) then E_ZTS_MISSING
+  else if (0 <? v) && (z =? ZeroId) then E_ZTS_MISSING
   else 0.
 
 Definition hash_used (h : hash) (s : state) : bool :=
@@ -177,7 +177,8 @@ Definition apply_send (s : state) (h : hash) (from to : addr) (z : zts) (v : Z) 
 
 (* ---------------------------------------------------------------- what an embedded method does when it receives *)
 Inductive call :=
-| KNotFound                                             (* ErrContractMethodNotFound at receive time *)
+| KNotFound                                             (* ErrContractMethodNotFound at receive time: rolled back and refunded *)
+| KPanic                                                (* the method panics (DealWithErr, nil dereference, ...) *)
 | KIssue (nz : zts) (total max : Z) (mintable burnable : bool) (text_ok : bool) (dok : bool)
 | KMint (z : zts) (amount : Z) (to : addr) (unpack_ok : bool) (dok : bool)
 | KBurn (unpack_ok : bool)
@@ -198,7 +199,7 @@ Definition m_issue (s : state) (sd : send) (nz : zts) (total max : Z) (mintable 
   else if max =? 0 then None
   else if max <? total then None
   else if negb mintable && negb (max =? total) then None
-  else if negb (s_zts sd =? ZnnZts) then None
+  else if negb (s_zts sd =? ZnnId) then None
   else if negb (s_amt sd =? TokenIssueAmount) then None
   else match get_tok nz (toks s) with
        | Some _ => None                                    (* ErrIDNotUnique *)
@@ -218,7 +219,7 @@ Definition m_mint (s : state) (sd : send) (z : zts) (amount : Z) (to : addr) (un
        | Some t =>
          if negb (t_mintable t) then None
          else if t_max t - t_total t <? amount then None
-         else if negb (if (z =? ZnnZts) || (z =? QsrZts) then is_emb (s_from sd) else t_owner t =? s_from sd) then None
+         else if negb (if (z =? ZnnId) || (z =? QsrId) then is_emb (s_from sd) else t_owner t =? s_from sd) then None
          else
            let t' := mkToken (t_total t + amount) (t_max t) (t_owner t) (t_mintable t) (t_burnable t) in
            let s1 := set_toks s (set_tok z t' (toks s)) in
@@ -259,10 +260,12 @@ Definition m_update (s : state) (sd : send) (z : zts) (owner : addr) (mintable b
            Some (set_toks s (set_tok z t' (toks s)), [])
        end.
 
-(* method.ReceiveBlock for the contract c; None = Go panic *)
+(* method.ReceiveBlock for the contract c; None = Go panic.  KNotFound: generateEmbeddedReceive takes the snapshot
+   before it looks at the lookup result (fix ea6a52e), so a missing method is an ordinary failure: reset, refund. *)
 Definition run_method (s : state) (c : addr) (sd : send) (k : call) : option mres :=
   match k with
-  | KNotFound => None
+  | KNotFound => Some None
+  | KPanic => None
   | KIssue nz total max mi bu tok dok => if c =? TokenContract then Some (m_issue s sd nz total max mi bu tok dok) else None
   | KMint z amount to uok dok => if c =? TokenContract then Some (m_mint s sd z amount to uok dok) else None
   | KBurn uok => if c =? TokenContract then m_burn s sd uok else None
@@ -327,9 +330,6 @@ Definition contract_receive (enf : bool) (s : state) (c : addr) (h : hash) (k : 
     | Some h' =>
       if negb (h' =? h) then (s, RErr E_SEQ_NOT_NEXT) else
       let saved := pop_front s c h in                                  (* SequencerPopFront, then Save *)
-      match k with
-      | KNotFound => (s, RErr E_PANIC)                                 (* Reset before Save: nil context *)
-      | _ =>
         let s1 := add_balance saved c (s_zts sd) (s_amt sd) in
         match run_method s1 c sd k with
         | None => (s, RErr E_PANIC)
@@ -350,7 +350,6 @@ Definition contract_receive (enf : bool) (s : state) (c : addr) (h : hash) (k : 
           | inl s3 => if descs_amounts_ok descs then (s3, ROk true) else (s, RErr E_DESC_VERIFY)
           end
         end
-      end
     end
   end.
 
